@@ -376,10 +376,14 @@ const (
 func (v Verdict) String() string { return [...]string{"reject", "accept", "unspecified"}[v] }
 
 // TrailingVerdict is the reference for AllowTrailingNonSpaceCharacters: accept
-// iff the text begins with one complete JSON value; Unspecified where maximal
-// munch of a top-level number admits two readings.
+// iff the text begins with one complete JSON value, numbers taken maximally: a
+// complete top-level number followed by a byte that cannot continue it (01,
+// 1.5.3, 1e5e3) IS a complete value followed by something. Unspecified only
+// where the maximal munch of a top-level number ends inside an incomplete
+// number (1.x, 1.5e+): "the number 1, then .x" and "the broken number 1." are
+// both readings of "taken maximally".
 func (p *PDA) TrailingVerdict() Verdict {
-	if p.AmbFinal || p.AmbPending {
+	if p.AmbPending {
 		return Unspecified
 	}
 	if p.CompleteSeen || p.AcceptEOF() {
